@@ -108,7 +108,10 @@ func (p *parser) advance() bool {
 			// ignore
 
 		} else if char == '#' {
-			p.next()
+			// skip the blank after '#', but never the end of the line or of the input
+			if p.next() != ' ' {
+				p.backup()
+			}
 			start := p.position
 			for {
 				c := p.next()
